@@ -17,74 +17,166 @@ use toodee::{
 /// With `LENIENT` set (root kind "torus") its index operators wrap around instead of panicking: the traits require the
 /// operators but say nothing about out-of-range behaviour, so a provided method must not rely on them for its own
 /// argument checks.
-pub struct Plain<T>(pub TooDee<T>);
+pub struct Plain<T: 'static>(pub TooDee<T>, Option<TooDeeViewMut<'static, T>>);
 thread_local! { pub static LENIENT: std::cell::Cell<bool> = const { std::cell::Cell::new(false) }; }
 fn wrap(i: usize, n: usize) -> usize {
     if n > 0 && LENIENT.with(|l| l.get()) { i % n } else { i }
 }
 
+/// columns of margin on either side of the window in the "plainv" form
+pub const PV_MARGIN: usize = 1;
+impl<T: CellT> Plain<T> {
+    /// forwards to an array it owns: rows are contiguous
+    pub fn owned(t: TooDee<T>) -> Plain<T> {
+        Plain(t, None)
+    }
+    /// Root kind "plainv": forwards to a WINDOW (narrower than its parent) of an array it owns, so its rows are `stride`
+    /// apart - a provided method that assumes packed rows is wrong for such an implementor.  `nc`, `nr` > 0.
+    pub fn window(nc: usize, nr: usize, items: Vec<T>) -> Plain<T> {
+        let pc = nc + 2 * PV_MARGIN;
+        let mut all: Vec<T> = Vec::with_capacity(pc * nr);
+        let mut it = items.into_iter();
+        for y in 0..nr {
+            for x in 0..pc {
+                if x >= PV_MARGIN && x < PV_MARGIN + nc { all.push(it.next().unwrap()) } else { all.push(T::make(888_100 + (y * pc + x) as u32)) }
+            }
+        }
+        let mut p = Plain(TooDee::from_vec(pc, nr, all), None);
+        // the view borrows the array stored next to it; the pair is never moved apart and the view is dropped first
+        let vm: TooDeeViewMut<'_, T> = p.0.view_mut((PV_MARGIN, 0), (PV_MARGIN + nc, nr));
+        p.1 = Some(unsafe { std::mem::transmute::<TooDeeViewMut<'_, T>, TooDeeViewMut<'static, T>>(vm) });
+        p
+    }
+    pub fn is_window(&self) -> bool {
+        self.1.is_some()
+    }
+    /// the cells the implementor exposes, row-major
+    pub fn exposed_cells(&self) -> Vec<&T> {
+        match &self.1 {
+            None => self.0.data().iter().collect(),
+            Some(v) => {
+                let (c, r) = v.size();
+                (0..r).flat_map(|y| (0..c).map(move |x| (x, y))).map(|(x, y)| &v[(x, y)]).collect()
+            }
+        }
+    }
+    pub fn base_addr(&self) -> usize {
+        match &self.1 {
+            None => self.0.data().as_ptr() as usize,
+            Some(_) => self.0.data().as_ptr() as usize + PV_MARGIN * std::mem::size_of::<T>(),
+        }
+    }
+    pub fn row_pitch(&self, nc: usize) -> usize {
+        if self.1.is_some() { nc + 2 * PV_MARGIN } else { nc }
+    }
+    pub fn shape_ok(&self, nc: usize, nr: usize) -> bool {
+        match &self.1 {
+            None => self.0.size() == (nc, nr) && self.0.data().len() == nc * nr,
+            Some(v) => v.size() == (nc, nr) && self.0.size() == (nc + 2 * PV_MARGIN, nr),
+        }
+    }
+    /// the margin cells are as they were made
+    pub fn margins_ok(&self) -> bool {
+        match &self.1 {
+            None => true,
+            Some(_) => {
+                let (pc, pr) = self.0.size();
+                let d = self.0.data();
+                (0..pr).all(|y| (0..pc).all(|x| {
+                    let inside = x >= PV_MARGIN && x < pc - PV_MARGIN;
+                    inside || !T::HAS_VALUE || d[y * pc + x].origin() == T::make(888_100 + (y * pc + x) as u32).origin()
+                }))
+            }
+        }
+    }
+}
+impl<T> Drop for Plain<T> {
+    fn drop(&mut self) {
+        self.1 = None; // the view goes before the array it points into
+    }
+}
+
+macro_rules! fwd {
+    ($s:expr, $x:ident => $e:expr) => {
+        match &$s.1 {
+            None => { let $x = &$s.0; $e }
+            Some(v) => { let $x = v; $e }
+        }
+    };
+}
+macro_rules! fwd_mut {
+    ($s:expr, $x:ident => $e:expr) => {
+        match &mut $s.1 {
+            None => { let $x = &mut $s.0; $e }
+            Some(v) => { let $x = v; $e }
+        }
+    };
+}
+
 impl<T> Index<usize> for Plain<T> {
     type Output = [T];
     fn index(&self, r: usize) -> &[T] {
-        &self.0[wrap(r, self.0.num_rows())]
+        let r = wrap(r, self.num_rows());
+        fwd!(self, x => &x[r])
     }
 }
 impl<T> Index<Coordinate> for Plain<T> {
     type Output = T;
     fn index(&self, c: Coordinate) -> &T {
-        &self.0[(wrap(c.0, self.0.num_cols()), wrap(c.1, self.0.num_rows()))]
+        let c = (wrap(c.0, self.num_cols()), wrap(c.1, self.num_rows()));
+        fwd!(self, x => &x[c])
     }
 }
 impl<T> IndexMut<usize> for Plain<T> {
     fn index_mut(&mut self, r: usize) -> &mut [T] {
-        let r = wrap(r, self.0.num_rows());
-        &mut self.0[r]
+        let r = wrap(r, self.num_rows());
+        fwd_mut!(self, x => &mut x[r])
     }
 }
 impl<T> IndexMut<Coordinate> for Plain<T> {
     fn index_mut(&mut self, c: Coordinate) -> &mut T {
-        let c = (wrap(c.0, self.0.num_cols()), wrap(c.1, self.0.num_rows()));
-        &mut self.0[c]
+        let c = (wrap(c.0, self.num_cols()), wrap(c.1, self.num_rows()));
+        fwd_mut!(self, x => &mut x[c])
     }
 }
 impl<T> TooDeeOps<T> for Plain<T> {
     fn num_cols(&self) -> usize {
-        self.0.num_cols()
+        fwd!(self, x => x.num_cols())
     }
     fn num_rows(&self) -> usize {
-        self.0.num_rows()
+        fwd!(self, x => x.num_rows())
     }
     fn view(&self, s: Coordinate, e: Coordinate) -> TooDeeView<'_, T> {
-        self.0.view(s, e)
+        fwd!(self, x => x.view(s, e))
     }
     fn rows(&self) -> Rows<'_, T> {
-        self.0.rows()
+        fwd!(self, x => x.rows())
     }
     fn col(&self, c: usize) -> Col<'_, T> {
-        self.0.col(c)
+        fwd!(self, x => x.col(c))
     }
     unsafe fn get_unchecked_row(&self, r: usize) -> &[T] {
-        self.0.get_unchecked_row(r)
+        fwd!(self, x => x.get_unchecked_row(r))
     }
     unsafe fn get_unchecked(&self, c: Coordinate) -> &T {
-        self.0.get_unchecked(c)
+        fwd!(self, x => x.get_unchecked(c))
     }
 }
 impl<T> TooDeeOpsMut<T> for Plain<T> {
     fn view_mut(&mut self, s: Coordinate, e: Coordinate) -> TooDeeViewMut<'_, T> {
-        self.0.view_mut(s, e)
+        fwd_mut!(self, x => x.view_mut(s, e))
     }
     fn rows_mut(&mut self) -> RowsMut<'_, T> {
-        self.0.rows_mut()
+        fwd_mut!(self, x => x.rows_mut())
     }
     fn col_mut(&mut self, c: usize) -> ColMut<'_, T> {
-        self.0.col_mut(c)
+        fwd_mut!(self, x => x.col_mut(c))
     }
     unsafe fn get_unchecked_row_mut(&mut self, r: usize) -> &mut [T] {
-        self.0.get_unchecked_row_mut(r)
+        fwd_mut!(self, x => x.get_unchecked_row_mut(r))
     }
     unsafe fn get_unchecked_mut(&mut self, c: Coordinate) -> &mut T {
-        self.0.get_unchecked_mut(c)
+        fwd_mut!(self, x => x.get_unchecked_mut(c))
     }
 }
 impl<T> CopyOps<T> for Plain<T> {}
@@ -442,7 +534,7 @@ def_mut_call!(mut_call, [R: TooDeeOpsMut<T> + CopyOps<T>,], R);
 def_mut_call!(mut_call_owned, [], TooDee<T>);
 def_mut_call!(mut_call_vm, ['v,], TooDeeViewMut<'v, T>);
 
-pub enum Leaf<'a, T> {
+pub enum Leaf<'a, T: 'static> {
     Owned(&'a mut TooDee<T>),
     Plain(&'a mut Plain<T>),
     VM(TooDeeViewMut<'a, T>),
@@ -716,7 +808,7 @@ pub fn run_case<T: CellT>(case: &Value, log: &mut Vec<Value>) -> Outcome {
 
     const EXTRA: usize = 2; // trailing cells of slice-built roots that the view must never touch
     let items: Vec<T> = make_items(&ids);
-    enum RootObj<T> {
+    enum RootObj<T: 'static> {
         Owned(TooDee<T>),
         Plain(Plain<T>),
         Slice(Vec<T>),
@@ -724,7 +816,13 @@ pub fn run_case<T: CellT>(case: &Value, log: &mut Vec<Value>) -> Outcome {
     LENIENT.with(|l| l.set(kind == "torus"));
     let mut rootobj = match kind {
         "owned" => RootObj::Owned(TooDee::from_vec(nc, nr, items)),
-        "plain" | "torus" => RootObj::Plain(Plain(TooDee::from_vec(nc, nr, items))),
+        "plain" | "torus" => RootObj::Plain(Plain::owned(TooDee::from_vec(nc, nr, items))),
+        "plainv" => {
+            if nc == 0 || nr == 0 {
+                return Outcome::Skipped;
+            }
+            RootObj::Plain(Plain::window(nc, nr, items))
+        }
         "slice_v" | "slice_m" => {
             let mut v = items;
             for i in 0..EXTRA {
@@ -736,10 +834,14 @@ pub fn run_case<T: CellT>(case: &Value, log: &mut Vec<Value>) -> Outcome {
     };
     let base = match &rootobj {
         RootObj::Owned(t) => t.data().as_ptr() as usize,
-        RootObj::Plain(t) => t.0.data().as_ptr() as usize,
+        RootObj::Plain(t) => t.base_addr(),
         RootObj::Slice(v) => v.as_ptr() as usize,
     };
-    let cx = Ctx { base, elem_size: std::mem::size_of::<T>(), root_nc: nc, root_len: nc * nr, off };
+    let pitch = match &rootobj {
+        RootObj::Plain(t) => t.row_pitch(nc),
+        _ => nc,
+    };
+    let cx = Ctx { base, elem_size: std::mem::size_of::<T>(), root_nc: pitch, root_len: nc * nr, off };
 
     let mut body = |mut leaf: Leaf<'_, T>| {
         let leaf = &mut leaf;
@@ -839,7 +941,7 @@ pub fn run_case<T: CellT>(case: &Value, log: &mut Vec<Value>) -> Outcome {
     let last = calls.len().saturating_sub(1);
     let (root_now, extras_ok, shape_ok): (Vec<u32>, bool, bool) = match &rootobj {
         RootObj::Owned(t) => (origins_of(t.data()), true, t.size() == (nc, nr) && t.data().len() == nc * nr),
-        RootObj::Plain(t) => (origins_of(t.0.data()), true, t.0.size() == (nc, nr) && t.0.data().len() == nc * nr),
+        RootObj::Plain(t) => (t.exposed_cells().iter().map(|e| e.origin()).collect(), t.margins_ok(), t.shape_ok(nc, nr)),
         RootObj::Slice(v) => {
             let o = origins_of(v);
             let ok = v.len() == nc * nr + EXTRA && (0..EXTRA).all(|i| !T::HAS_VALUE || o[nc * nr + i] == T::make(888_000 + i as u32).origin());
@@ -886,7 +988,7 @@ pub fn run_case<T: CellT>(case: &Value, log: &mut Vec<Value>) -> Outcome {
     let tracked_cells_ok = if T::TRACKED {
         let cells: Vec<&T> = match &rootobj {
             RootObj::Owned(t) => t.data().iter().collect(),
-            RootObj::Plain(t) => t.0.data().iter().collect(),
+            RootObj::Plain(t) => t.exposed_cells(),
             RootObj::Slice(v) => v.iter().collect(),
         };
         let mut serials: Vec<u64> = cells.iter().map(|e| e.serial()).collect();
